@@ -5,8 +5,8 @@ import os, sys
 sys.path.insert(0, os.path.join(os.path.dirname(__file__), '..', 'engine'))
 from run import Q, Unit
 W = os.path.join(os.path.dirname(__file__), '..', 'wrap', 'c01_slab.cpp')
-POL = {1: 'aligned map(len, align)', 2: 'unaligned map(len)', 3: 'aligned + poison hooks'}
-UNITS = [Unit('c01_slab_p%d' % p, flat=True, cxxflags=['-DVP_POLICY=%d' % p], src=W) for p in (1, 2, 3)]
+POL = {1: 'aligned map(len, align)', 2: 'unaligned map(len)', 3: 'aligned + poison hooks', 4: 'aligned map, page = superblock = slab = 512'}
+UNITS = [Unit('c01_slab_p%d' % p, flat=True, cxxflags=['-DVP_POLICY=%d' % p], src=W) for p in (1, 2, 3, 4)]
 OPN = {0: 'alloc', 1: 'free', 2: 'dealloc', 3: 'realloc'}
 SIZES12 = [0, 8, 9, 16, 17, 32, 33, 64, 65, 128, 129, 200]      # every class, both sides of every class boundary, the small/large threshold, 2/3/4-page large frames
 SIZES6 = [0, 8, 24, 64, 65, 129]
@@ -28,7 +28,7 @@ def scen(pol, ops, hs, sel0, sizes, faults=0, timeout=1500, mem=6, optional=Fals
     q = Q(name, 'c01_slab_p%d' % pol, 'c01_slab.c', 'harness', defs=defs, unwind=max(70, nscen + 2), inline_witness=True, witness='any', timeout=timeout, mem_gb=mem, optional=optional,
              unwind_fn=[(r'^reset_all$', 70), (r'^harness$', len(sizes) + K + 3), (r'^(check_block|check_content|fill|is_poisoned)$', 300)], solver='minisat2',
              bounds={'operations': K, 'operation kinds': [OPN[o] + ('' if o == 0 else ' of block %d' % h) for o, h in zip(ops, hs)], 'first size': sizes[sel0], 'second size': 'fixed: %d' % sizes[sel1] if sel1 is not None else 'every table entry', 'later sizes': 'every entry of %s' % sizes,
-                     'scenarios in this query': nscen, 'map failure': 'at every map call position 0..%d' % K if faults else 'none', 'policy': 'page 64, slab = superblock 512, 4 classes; ' + POL[pol],
+                     'scenarios in this query': nscen, 'map failure': 'at every map call position 0..%d' % K if faults else 'none', 'policy': ('page 64, ' if pol != 4 else '') + 'slab = superblock 512, 4 classes; ' + POL[pol],
                      'mode': 'concrete symbolic execution of the real code over flat word-granular memory (scenario parameters enumerated, no symbolic inputs)'},
              what='%s: first size %d, every later size from the table%s, policy %s: all clauses of C01-C04 and lock discipline after every operation' % ('/'.join(OPN[o] for o in ops), sizes[sel0], ', map() failing at every call position' if faults else '', POL[pol]))
     if pol == 3: q.replay = 'generated'      # the poison access hook exists only in the flat-memory build
@@ -61,6 +61,11 @@ def all_queries(tier):
             for (ops, hs) in SEQ3[:5]:
                 for s0 in range(6):
                     for s1 in (1, 3, 4): qs.append(scen(pol, ops, hs, s0, S6, faults=1, sel1=s1, timeout=2400, mem=8, optional=True))
+    for (ops, hs) in SEQ2:                      # configuration with page size == superblock size (frame lookup of blocks that start on a superblock boundary)
+        for s0 in ((3, 8, 10) if quick else range(12)): qs.append(scen(4, ops, hs, s0, SIZES12))
+    # poisoning policy, 8-byte class (requests shorter than the allocator's link word): only alloc/free pairs, the poison log grows with every carved slot
+    for s0 in (0, 1): qs.append(scen(3, [0, 1], [0, 0], s0, [0, 8, 24]))
+    for s0 in (0, 1): qs.append(scen(3, [0, 3], [0, 0], s0, [0, 8, 24]))
     if not quick:
         for (ops, hs) in SEQ4:
             for s0 in (1, 3, 4):
@@ -69,10 +74,10 @@ def all_queries(tier):
 def select(tier, pred):
     return [q for q in all_queries(tier) if pred(q.tag)]
 # C01: validity/size/alignment/disjointness on every non-fault scenario of the plain policies (aligned and unaligned map)
-def queries(tier): return select(tier, lambda t: t['pol'] in (1, 2) and not t['faults'])
+def queries(tier): return select(tier, lambda t: t['pol'] in (1, 2, 4) and not t['faults'])
 def validation_queries(tier):
     v = []
-    for p in (1, 2):
+    for p in (1, 2, 4):
         q = scen(p, [0, 3, 1, 0], [0, 0, 0, 0], 0, SIZES12); q.name = 'p%d.validate' % p; v.append(q)
         q = scen(p, [0, 0, 3, 2], [0, 0, 1, 0], 0, SIZES12, faults=1); q.name = 'p%d.validate.fault' % p; v.append(q)
     return v
